@@ -5,13 +5,16 @@ cd "$(dirname "$0")/.."
 names="$@"; [ -z "$names" ] && names=$(ls seeded)
 for n in $names; do
   git -C /repo apply --check $PWD/seeded/$n/patch.diff 2>/dev/null || { echo "$n: PATCH DOES NOT APPLY"; continue; }
+  grep -q neutralised_by seeded/$n/meta.json && { echo "$n: neutralised by a later /repo fix (skipped)"; continue; }
   checks=$(python3 -c "
 import json,re
 j=json.load(open('seeded/$n/meta.json'))
 print(' '.join(sorted({m.group(1) for c in j['caught_by'] for m in [re.match(r'(C\d+) quick', c)] if m})))")
   for c in $checks; do
-    out=$(tools/mutant.sh $PWD/seeded/$n/patch.diff -- $c quick 2>&1 | tail -1)
-    if [ "$out" = "exit=1" ]; then echo "$n $c CAUGHT"; else echo "$n $c MISSED ($out)"; fi
+    for sd in ${SEEDS:-1}; do
+      out=$(VERIF_SEED=$sd tools/mutant.sh $PWD/seeded/$n/patch.diff -- $c quick 2>&1 | tail -1)
+      if [ "$out" = "exit=1" ]; then echo "$n $c seed=$sd CAUGHT"; else echo "$n $c seed=$sd MISSED ($out)"; fi
+    done
   done
 done
 exit 0
